@@ -97,10 +97,10 @@ CONTRACTS = [
     Contract(F + "::TaskIdentifier.__repr__", returns="str", props=["C20"],
              ensures=[C("canonical_form", "result == '//' + join('/', Path_parts(self._path)) + ':' + self._name")]),
 
-    Contract(F + "::TaskIdentifier.__eq__", params={"other": "TaskIdentifier"}, returns="bool", props=["C20"],
+    Contract(F + "::TaskIdentifier.__eq__", params={"other": "TaskIdentifier"}, returns="bool", props=["C20", "C14", "C02"],
              ensures=[C("structural_equality", "result == (self._path == other._path and self._name == other._name)"),
                       C("same_as_value_identity", "result == (self == other)")]),
-    Contract(F + "::TaskIdentifier.__hash__", returns="int", props=["C20"],
+    Contract(F + "::TaskIdentifier.__hash__", returns="int", props=["C20", "C14", "C02"],
              ensures=[C("hash_of_canonical_form", "result == hash('//' + join('/', Path_parts(self._path)) + ':' + self._name)")]),
 
     Contract(F + "::TaskIdentifier.path_to_cond_file", params={"project_root": "Opt[Val[Path]]"}, returns="Val[Path]", extern=True,
